@@ -72,7 +72,9 @@ def main(ctx):
                 j["a"], j["b"], b, j["ra"], j["rb"], j["lt"], j["gt"], r["ra"], r["rb"], r["lt"], r["gt"]))
     # zones
     import zoneinfo
-    zones = ZONES_Q if ctx.quick else sorted(z for z in zoneinfo.available_timezones() if "/" in z and not z.startswith(("Etc/", "posix/", "right/")))
+    allz = sorted(z for z in zoneinfo.available_timezones() if "/" in z and not z.startswith(("Etc/", "posix/", "right/")))
+    # quick: the fixed list plus every sixth zone of the database (all zones in the thorough tier)
+    zones = sorted(set(ZONES_Q) | set(allz[::6])) if ctx.quick else allz
     zjobs = []
     for z in zones:
         trs = [t for t in timeslib.transitions(z) if 0 < t[0] < 2100000000]
